@@ -2971,7 +2971,7 @@ class Interp:
                 return Opaque("callable", lambda rhs, H_=args[0]: solver(H_, rhs))
             if leaf == "splu" and len(args) >= 1:
                 return Opaque("lu", args[0])
-        if leaf != "closing":
+        if leaf not in ("closing", "islice"):
             args = [a.drain() if isinstance(a, LazyIter) else a for a in args]
         if origin.startswith("logging") and leaf == "getLogger":
             return Opaque("logger")
@@ -3001,7 +3001,17 @@ class Interp:
                 return out_
             if leaf == "islice":
                 iv = [None if a is None else self.intval(a, n) for a in args[1:]]
-                return list(_it.islice(self.iterate(args[0], n), *iv))
+                src_ = args[0]
+                if isinstance(src_, LazyIter):
+                    # an iterator is consumed only as far as the slice needs: what follows stays available to the next consumer
+                    def pulls():
+                        while True:
+                            try:
+                                yield src_.next()
+                            except StopIteration:
+                                return
+                    return LazyIter(list(_it.islice(pulls(), *iv)))
+                return list(_it.islice(self.iterate(src_, n), *iv))
         if origin.startswith("operator") and leaf == "methodcaller":
             mname, margs = args[0], list(args[1:])
             return Opaque("callable", (lambda obj, mname=mname, margs=margs: self.call_method(obj, mname, margs) if isinstance(obj, (Pose, Obj))
